@@ -6,8 +6,8 @@ import Scfg.Model.Iter
 names it yields is *exactly* the set `Covered` — the head of the level, every member of the level
 reachable from it through `jump_targets`, and (recursively) the same below every region that was
 reached. Nothing foreign is yielded (soundness) and nothing reachable is missed (completeness),
-whatever the nesting depth. `iterAll_level_nodup`: no member of the level the iterator was started
-on is yielded twice by that level's loop.
+whatever the nesting depth. Duplicate-freedom of the yielded list (`iterAll_nodup`,
+`iterAll_enumerates`) is in Props/C16Nodup.lean.
 -/
 namespace Scfg.C16
 open Scfg Scfg.Model
